@@ -94,6 +94,10 @@ class MidiFile(object):
                         if current_length - duration != 0:
                             b.current_beat -= 1.0 / current_length
                             b.current_beat += 1.0 / duration
+                    else:
+                        # time passes before the first entry of the track:
+                        # the track starts with a rest
+                        b.place_rest(duration)
                     if not b.place_notes(NoteContainer(), duration):
                         t + b
                         b = Bar(key, meter)
